@@ -166,7 +166,7 @@ func errClass(err error) string {
 	return "other:" + err.Error()
 }
 
-func runPCase(c PCase, x *vstat.Ctx) error {
+func runPCase(c PCase, x *vstat.Ctx) (err error) {
 	if len(c.Progs) == 0 || c.Keys < 1 {
 		return vstat.ErrSkip
 	}
@@ -178,6 +178,11 @@ func runPCase(c PCase, x *vstat.Ctx) error {
 		return vstat.ErrSkip
 	}
 	defer w.teardown()
+	defer func() {
+		if err != nil {
+			w.failed = true
+		}
+	}()
 	a := w.a
 
 	// one reading watcher of everything, subscribed before the clients start
